@@ -308,7 +308,8 @@ class Schema:
         if from_path is None:
             from_path = []
 
-        from_path_str = tuple(str(i) for i in from_path)
+        # (compare the string forms of the path *parts*, as for the rule paths below)
+        from_path_str = tuple(str(i) for i in DataPath(*from_path).parts)
         from_path_simple = DataPath(*from_path).simplify()
 
         items = {}
